@@ -21,6 +21,7 @@ import (
 	"fmt"
 	"strconv"
 	"sync"
+	"sync/atomic"
 	"time"
 
 	corev1 "k8s.io/api/core/v1"
@@ -227,6 +228,7 @@ type fakeAPI struct {
 	releasech  chan struct{}
 	watchCalls []*watchCall
 	dropNext   int // drop the next n non-marker events on live sessions (lost by the watch)
+	onWatch    func(idx int) // called (without the lock) when a Watch call arrives
 }
 
 func newFakeAPI() *fakeAPI {
@@ -359,6 +361,28 @@ func (a *fakeAPI) awaitList(d time.Duration) *listReq {
 	}
 }
 
+// awaitListWedge waits for the next gated List call with the wedge bound
+// (10 s, confirmed once with 25 s more; 2 s once a wedge has been confirmed
+// in this process).
+func (a *fakeAPI) awaitListWedge() *listReq {
+	first := wedgeBound
+	if atomic.LoadInt32(&wedgeSeen) != 0 {
+		first = wedgeAfter
+	}
+	if r := a.awaitList(first); r != nil {
+		return r
+	}
+	if atomic.LoadInt32(&wedgeSeen) != 0 {
+		return nil
+	}
+	if r := a.awaitList(wedgeConfirm); r != nil {
+		statSlow("harness")
+		return r
+	}
+	atomic.StoreInt32(&wedgeSeen, 1)
+	return nil
+}
+
 // release lets a gated List return: with the snapshot taken when it was
 // called, or with a snapshot taken now.
 func (r *listReq) release(a *fakeAPI, atCall bool) snapshot {
@@ -378,7 +402,11 @@ func (a *fakeAPI) Watch(ctx context.Context, o metav1.ListOptions) (watch.Interf
 	wc := &watchCall{at: time.Now(), rv: o.ResourceVersion}
 	a.watchCalls = append(a.watchCalls, wc)
 	hold := a.holdWatch
+	onWatch := a.onWatch
 	a.mu.Unlock()
+	if onWatch != nil {
+		onWatch(idx)
+	}
 	if hold {
 		a.wcallch <- idx
 		select {
@@ -608,3 +636,5 @@ func (a *fakeAPI) String() string {
 	defer a.mu.Unlock()
 	return fmt.Sprintf("fakeAPI{rv=%d objs=%d lists=%d watches=%d}", a.rv, len(a.objs), a.nlists, len(a.watchCalls))
 }
+
+func watchEventNil() watch.Event { return watch.Event{Type: watch.Modified, Object: nil} }
